@@ -257,7 +257,8 @@ def matrix(ctx, report, rule, facts, config, want=("matrix", "exact", "dephit", 
         unknown = [ct for (ct, cv, cn, cs) in it.conds if ct not in info and ct[0] in ("call", "bin", "un")]
         counted = [k for k in m.acc_keys if it.updates.get(k) != ("lvar", G.id, k)]
         well = all(Q.is_call(ev, it.updates[k], "add") and tuple(Q.strip(ev, a) for a in it.updates[k][2]) == (("lvar", G.id, k), G.elem) for k in counted)
-        flagged = [k for k in m.flag_keys if it.updates.get(k) == ("int", 1)]
+        flagged = [k for k in m.flag_keys if it.updates.get(k) == ("int", 1)
+                   or (it.updates.get(k) == ("lvar", G.id, k) and it.path.value(("lvar", G.id, k)) == 1)]   # already set, left set
         cleared = [k for k in m.flag_keys if it.updates.get(k) == ("int", 0)]
         if counted and not well and ("matrix" in want or "dephit" in want):
             bad.append("a conflicting group is not recorded as Conflict::add(so far, this group)")
@@ -268,7 +269,7 @@ def matrix(ctx, report, rule, facts, config, want=("matrix", "exact", "dephit", 
                 bad.append("a group holding a pending dependency is not counted as conflicting")
             if any_dep and not any_res and not flagged:
                 bad.append("a dependency hit does not set the dependency flag")
-            if flagged and not any_dep:
+            if [k for k in flagged if it.updates.get(k) == ("int", 1)] and not any_dep:
                 bad.append("the dependency flag is set on a path without a dependency hit")
             if cleared:
                 bad.append("the dependency flag is cleared inside the scan")
@@ -394,10 +395,15 @@ def depgate(ctx, report, rule, facts, config):
                 cons.append(("Eq", 0) if cv == 1 else ("Ne", 0))
             else:
                 nc = Q.norm_cmp(ct, cv)
+                if nc is not None and Q.strip(ev, nc[1]) in flag_terms:
+                    nc = (Q.FLIP[nc[0]], nc[2], nc[1])
                 if nc is not None and nc[2][0] == "int" and ((Q.is_call(ev, nc[1], "len") and is_dep(nc[1][2][0])) or (nc[1][0] == "len" and is_dep(nc[1][1]))):
                     cons.append((nc[0], nc[2][1]))
                     if nc[2][1] > 3:
                         problems.append("the pending list is compared with %d" % nc[2][1])
+                elif nc is not None and Q.strip(ev, nc[2]) in flag_terms and ((Q.is_call(ev, nc[1], "len") and is_dep(nc[1][2][0])) or (nc[1][0] == "len" and is_dep(nc[1][1]))):
+                    # `pending.len() > usize::from(hit)`: the flag itself is the bound
+                    cons.append((nc[0], "F"))
                 elif ct[0] == "discr" or ct in acc_terms:
                     continue
                 else:
@@ -413,7 +419,7 @@ def depgate(ctx, report, rule, facts, config):
     for f in (0, 1):
         for n in (0, 1, 2, 3):
             expect = "Multiple" if ((f == 1 and n >= 2) or (f == 0 and n >= 1)) else "scan"
-            hit = [r for r in rows if (r[0] is None or r[0] == f) and all(Q.holds_for(op, n, k) for op, k in r[1])]
+            hit = [r for r in rows if (r[0] is None or r[0] == f) and all(Q.holds_for(op, n, f if k == "F" else k) for op, k in r[1])]
             if not hit:
                 problems.append("no path for (dependency hit=%d, %d pending)" % (f, n))
             for r in hit:
